@@ -4,7 +4,9 @@ pub mod dec;
 pub mod e1;
 pub mod e1c;
 pub mod e2;
+pub mod e3;
 pub mod e4;
+pub mod e5;
 pub mod fe;
 pub mod json;
 pub mod mon;
